@@ -17,7 +17,7 @@ import concurrent.futures as cf
 import vlib
 from vlib import log
 
-CHARMAP = {"U2": "é", "C2": "·", "U3": "€", "U4": "\U0001F600", "T": "\t"}
+CHARMAP = {"U2": "é", "C2": "·", "U3": "€", "U4": "\U0001F600", "T": "\t", "W3": "\u3000"}
 INV = {v: k for k, v in CHARMAP.items()}
 
 
@@ -343,7 +343,7 @@ def replay_rejects(chk, by_key, tier, seed):
 # T: neighbours and random literals, validated by TLC
 # --------------------------------------------------------------------------------------------
 ALPH = ["{", "}", ":", "0", "1", "2", "9", "a", "s", "v", "x", "X", "o", "p", "b", "e", "E", "?", "$", ".", "*",
-        "<", "^", ">", "+", "-", "#", " ", "_", "U2", "C2", "U3", "U4", "T", "!"]
+        "<", "^", ">", "+", "-", "#", " ", "_", "U2", "C2", "U3", "U4", "T", "W3", "!"]
 
 
 def trace_validate(chk, cases, tier, seed):
